@@ -347,6 +347,69 @@ theorem fejersecond_shape (n : ℕ) (hn : 2 ≤ n) :
 example : (ClenshawCurtis.points (K := ℝ) 6).Pairwise (· < ·) := (clenshawcurtis_shape 6 (by norm_num)).2.2.2.1
 example : (FejerFirst.weights (K := ℝ) 7).length = 7 := (fejerfirst_shape 7 (by norm_num)).2.2.1
 
+/-! ### documented weights of the closed-form rules -/
+
+/-- **Chebyshev–Lobatto weights**: `wᵢ = π/(n-1) · sin(iπ/(n-1))`, halved at both ends
+(the documented `wᵢ·√(1-xᵢ²)` with `xᵢ = -cos(iπ/(n-1))`). -/
+theorem chebyshevlobatto_weights_formula (n : ℕ) (hn : 2 ≤ n) :
+    GaussChebyshevLobatto.weights (K := ℝ) n = (List.range n).map fun (i : ℕ) =>
+      (if i = 0 ∨ i = n - 1 then (1 / 2 : ℝ) else 1) * (π / ((n : ℝ) - 1)) *
+        Real.sin (π * (i : ℝ) / ((n : ℝ) - 1)) := by
+  have hd : (0 : ℝ) < (n : ℝ) - 1 := by
+    have : (2 : ℝ) ≤ n := by exact_mod_cast hn
+    linarith
+  unfold GaussChebyshevLobatto.weights GaussChebyshevLobatto.points divAt
+  rw [reverse_map_range, List.map_map, mapIdx_map_range, mapIdx_map_range]
+  apply List.map_congr_left
+  intro i hi
+  have hi' : i < n := List.mem_range.mp hi
+  simp only [Function.comp, Elem.cos, Elem.sqrt, Elem.pi, npow_eq_pow, Nat.cast_one, Nat.cast_ofNat,
+    cast_pred n hn]
+  have hc : ((n - 1 - i : ℕ) : ℝ) = (n : ℝ) - 1 - i := by
+    rw [Nat.cast_sub (by omega), cast_pred n hn]
+  have harg : ((n - 1 - i : ℕ) : ℝ) * π / ((n : ℝ) - 1) = π - π * (i : ℝ) / ((n : ℝ) - 1) := by
+    rw [hc]; field_simp
+  have hrange : 0 ≤ π * (i : ℝ) / ((n : ℝ) - 1) ∧ π * (i : ℝ) / ((n : ℝ) - 1) ≤ π := by
+    apply angle_bounds _ _ (by positivity) _ hd
+    have : i + 1 ≤ n := by omega
+    have : ((i + 1 : ℕ) : ℝ) ≤ n := by exact_mod_cast this
+    push_cast at this; linarith
+  have hsq : Real.sqrt (1 - Real.cos (((n - 1 - i : ℕ) : ℝ) * π / ((n : ℝ) - 1)) ^ 2)
+      = Real.sin (π * (i : ℝ) / ((n : ℝ) - 1)) := by
+    rw [harg, Real.cos_pi_sub, neg_sq, ← Real.sin_sq,
+      Real.sqrt_sq (Real.sin_nonneg_of_nonneg_of_le_pi hrange.1 hrange.2)]
+  rw [hsq]
+  by_cases h0 : i = 0
+  · by_cases hl : i = n - 1
+    · omega
+    · simp [h0, hl]
+  · by_cases hl : i = n - 1
+    · have hn1 : n - 1 ≠ 0 := by omega
+      rw [if_pos hl, if_neg h0, if_pos (Or.inr hl)]
+      ring
+    · rw [if_neg hl, if_neg h0, if_neg (by tauto)]
+      ring
+
+/-- **Sine-rectangle weights** as documented:
+`wᵢ = 2 · 2/(n+1) · Σ_{m=1}^{n} sin(mπxᵢ)(1 - cos(mπ))/(mπ)`, `xᵢ = (i+1)/(n+1)`. -/
+theorem rectanglesine_weights_formula (n : ℕ) :
+    RectangleRuleSineEndPoints.weights (K := ℝ) n = (List.range n).map fun (i : ℕ) =>
+      (∑ m ∈ Finset.range n, (1 - Real.cos (((m + 1 : ℕ) : ℝ) * π)) / (((m + 1 : ℕ) : ℝ) * π) *
+          Real.sin (((m + 1 : ℕ) : ℝ) * π * (((i + 1 : ℕ) : ℝ) / ((n + 1 : ℕ) : ℝ))))
+        * (2 / ((n + 1 : ℕ) : ℝ)) * 2 := by
+  unfold RectangleRuleSineEndPoints.weights RectangleRuleSineEndPoints.bm
+    RectangleRuleSineEndPoints.sim RectangleRuleSineEndPoints.mpi RectangleRuleSineEndPoints.points0
+  simp only [List.map_map]
+  rw [show ((fun a : ℝ => List.map ((fun x => Elem.sin (a * x)) ∘ fun (i : ℕ) => ((i + 1 : ℕ) : ℝ) / ((n + 1 : ℕ) : ℝ))
+        (List.range n)) ∘ fun (i : ℕ) => ((i + 1 : ℕ) : ℝ) * Elem.pi)
+      = fun (m : ℕ) => (List.range n).map fun (i : ℕ) =>
+          Real.sin (((m + 1 : ℕ) : ℝ) * π * (((i + 1 : ℕ) : ℝ) / ((n + 1 : ℕ) : ℝ))) from rfl,
+    vecMat_map_range]
+  simp only [List.map_map]
+  apply List.map_congr_left
+  intro i _
+  simp only [Function.comp, Elem.cos, Elem.pi, Nat.cast_ofNat, Nat.cast_one]
+
 /-! ### Trefethen polynomial transformations of a rule on `[-1, 1]` -/
 
 private theorem map_shape (φ : ℝ → ℝ) (hφ : StrictMono φ) (h1 : φ 1 = 1) (hm1 : φ (-1) = -1)
